@@ -174,3 +174,26 @@ THOROUGH_SCALE = {"C01": 3, "C02": 4, "C04": 5, "C05": 3, "C06": 8, "C11": 12, "
 for _p, _s in THOROUGH_SCALE.items():
     if _p in PROPS:
         PROPS[_p]["thorough"][0] = dict(PROPS[_p]["thorough"][0], scale=_s)
+
+# later additions to what each check runs (DESIGN.md 12.8-12.10): appended to the level text of the manifest
+EXTRA_TEXT = {
+ "C01": " Added later: huge_ families (>= 64 KiB .. 3 MiB, > 65535 occurrences of one symbol), `startup_tails` (every tail/head of length <= 6 over rare low-valued symbols + runs of 1..24, for all FSE/rANS targets), bit-field / dictionary save-load / encoder-reset / fast-division families.",
+ "C02": " Added later: huge_ payloads, non-preset PaZip configurations (`pazip/custom`), reference-encoder model decoder, local matcher, suffix-array queries, dictionary serialize/save-load, alternative real-time constructors.",
+ "C03": " Added later: huge_ record sets, 8 post-finalize() operations per trie-store history (a refused call must change nothing), batch/bulk/builder equivalences, wrapper inner()/into_inner() re-wrapping, shared page cache.",
+ "C04": " Added later: BitVector mutation API (set/insert/pop/resize/ensure_set1/set_range_simd/bulk_bitwise_op_simd) against Vec<bool> with rank/select structures rebuilt from the mutated vector, word-level and bulk BMI2 rank/select primitives, *_optimized entry points.",
+ "C05": " Added later: 256-way fan-out and long-key huge_ families, node-id lookup/restore, shrink_to_fit between mutations, stats().num_keys, double-array state walks, token API, ParallelTrieOps (merge, similarity, common prefixes).",
+ "C06": " Added later: huge_ growth histories, the library's own hash functions as caller-supplied BuildHasher, EasyHashMap get_or_*/extend, GoldHashIdx batch API, HashStrMap FastStr API, hash-function contracts.",
+ "C07": " Added later: non-preset thread-local arena sizes, slice views of every allocation type, capacity queries vs refusals, free-list walkers vs the live set, SecurePoolConfig builders, bump/cache-aligned vectors.",
+ "C09": " Added later: push/set/resize/shrink/clear histories for UintVecMin0 and ZipIntVec (object reused after truncation), resize_with_*/risk_set_data/swap, SortedUintVec builders, IntVec clone.",
+ "C10": " Added later: arena-limit end game for FixedLenStrVec (exactly 2^24 bytes), unchecked push / iter_mut / as_mut_slice, MmapVec sync+reopen continuation, BitPackedStringVec::extend, long needles through the vectorised searches.",
+ "C11": " Added later: sorter reuse after a failed sort (element whose serialisation fails), partially consumed merge sources, default constructors, SIMD compare/min, loser-tree append.",
+ "C12": " Added later: dictionaries after serialize/deserialize, save/load, optimize_cache, reset_stats, clone and the concurrent wrapper must answer like the brute-force model.",
+ "C13": " Added later: context clear()+reuse rounds, strategy/endian shortcuts, remaining_slice/into_inner positions, mmap peek / zero-copy / seek+patch, all range/stream-buffer/zero-copy accessors, UTF-8 validation across buffer boundaries, migrations.",
+ "C14": " Added later: exhaustive parse_hex_byte, unicode iterator/analysis, CPU-feature selection on synthetic feature sets, cache-config memory ops, adaptive selector cache eviction.",
+ "C15": " Added later: `containers` family (FSE block containers with consistent size tables and degenerate 1..8-byte blocks), huge_trunc / huge_field.",
+ "C17": " Added later: out-parameter reads into one reused CacheBuffer, CacheBuffer/BufferPool model, no-callback constructors, shard API, CachedBlobStore with shared cache and inner_mut writes.",
+ "C18": " Added later: observer threads polling is_idle()/total_queued() during execution, opt-in deadlock probe (all threads blocked = violation), submit_closure, direct queue ops, FiberPool builder/handles, spawn_blocking, pipeline builder, yield primitives, fiber AIO round trips.",
+ "C19": " Added later: > 4 GiB sparse files, mmap input/output API, reorder-map cursor, offset-cached reads, trie-store save/reopen, dictionary match queries after reload, create_new over a populated directory.",
+}
+for _p, _t in EXTRA_TEXT.items():
+    if _p in PROPS: PROPS[_p]["level_text"] = PROPS[_p]["level_text"] + _t
